@@ -407,6 +407,50 @@ fn variant(r: &mut Rng, s: &[u8]) -> Vec<u8> {
     v
 }
 
+/// a string that differs from the name `s` in exactly one letter, replaced by a NON-ASCII character that a
+/// Unicode-aware case mapping sends to (or near) that letter: KELVIN SIGN for k, LONG S for s, dotted /
+/// dotless I for i, the fullwidth forms for any letter.  No parser accepts such a string, so `name == s`
+/// has to be false; an ASCII-only or random-byte generator never produces one.
+fn fold_lookalike(r: &mut Rng, s: &[u8]) -> (Vec<u8>, Vec<u8>) {
+    let mut name = s.to_vec();
+    let letters: Vec<usize> = (0..name.len()).filter(|&i| name[i].is_ascii_alphabetic()).collect();
+    if letters.is_empty() {
+        return (name.clone(), name);
+    }
+    let i = *r.pick(&letters);
+    if r.chance(2, 3) {
+        let c = *r.pick(b"kKsSiI");
+        name[i] = c;
+    }
+    let c = name[i];
+    let lower = c.to_ascii_lowercase();
+    let mut cands: Vec<char> = Vec::new();
+    match lower {
+        b'k' => cands.push('\u{212A}'),
+        b's' => cands.push('\u{017F}'),
+        b'i' => {
+            cands.push('\u{0131}');
+            cands.push('\u{0130}');
+        }
+        _ => {}
+    }
+    cands.push(char::from_u32(0xFF41 + (lower - b'a') as u32).unwrap());
+    cands.push(char::from_u32(0xFF21 + (lower - b'a') as u32).unwrap());
+    let ch = *r.pick(&cands);
+    let mut out = name[..i].to_vec();
+    let mut tmp = [0u8; 4];
+    out.extend_from_slice(ch.encode_utf8(&mut tmp).as_bytes());
+    out.extend_from_slice(&name[i + 1..]);
+    if r.chance(1, 3) {
+        if out.last() == Some(&b'.') && out.len() > 1 {
+            out.pop();
+        } else {
+            out.push(b'.');
+        }
+    }
+    (name, out)
+}
+
 pub fn gen(stream: &str, r: &mut Rng, _i: u64) -> String {
     match stream {
         "text" => {
@@ -493,7 +537,10 @@ pub fn gen(stream: &str, r: &mut Rng, _i: u64) -> String {
             let a = gen_name_text(r);
             let b = if r.chance(3, 4) { variant(r, &a) } else { gen_name_text(r) };
             match r.below(4) {
-                0 => format!("eqstr {} {} {}", if r.chance(1, 2) { "heap" } else { "inline" }, to_hex(&a), to_hex(&b)),
+                0 => {
+                    let (a, b) = if r.chance(1, 5) { fold_lookalike(r, &a) } else { (a, b) };
+                    format!("eqstr {} {} {}", if r.chance(1, 2) { "heap" } else { "inline" }, to_hex(&a), to_hex(&b))
+                }
                 _ => format!("cmp {} {}", to_hex(&a), to_hex(&b)),
             }
         }
